@@ -8,7 +8,8 @@ import infra
 def main():
     for d in ("build", "evidence", "replays"):
         os.makedirs(os.path.join(infra.VERIF, d), exist_ok=True)
-    targets = [f"Magog.Props.C{i:02d}" for i in range(1, 20)]
+    pd = os.path.join(infra.LEAN, "Magog", "Props")
+    targets = sorted("Magog.Props." + fn[:-5] for fn in os.listdir(pd) if fn.endswith(".lean"))
     r = infra.prepare(lean_targets=["Magog"] + targets)
     bad = [k for k, (rc, out) in r["lean"].items() if rc != 0]
     for k in bad:
